@@ -37,7 +37,7 @@ def oracle_best(rep, keys, got_key, what, case):
 
 def run(ctx, rep):
     rng = ctx.rng
-    rep.rule = ("scripted populations of 1..9 individuals per island with ties, NaN, +-inf in every position; archipelagos of 1..5 islands; "
+    rep.rule = ("scripted populations of 1..9 individuals per island with ties, NaN, +-inf in every position; archipelagos of 1..5 islands; every flag state x age x evaluation mode for the query; predictor islands (plain / delegating fitness, hall of fame attached three ways, queries around a population change); "
                 "distinct = distinct key arrangements; non-trivial = at least two different keys")
     rep.assumptions = ["fitness values are Python floats compared with < (NaN comparisons false)"]
     island, _ = simple_island(0)
